@@ -87,6 +87,26 @@ CLAIMED.update({
             "Bounds: alphabet {a, b, CR, LF}; quick 10 of the 39 width lists, thorough all; longer files only well-formed with "
             "one mutation.",
             "DESIGN.md section 5, C13"),
+    "C02": ("TLA+ specs FieldInteger / FieldDateTime / FieldDecimal / FieldText (per-type mechanism transcribed from fields.py and "
+            "ranges.py, checked by TLC against the meaning stated in the property); every explored (declaration, cell) replayed on "
+            "the real field classes under delimited / fixed / excel / ods formats",
+            "TLC checks IntegerMeansWhatItSays (length-derived ranges == 'text fits the length' at every power-of-ten boundary, "
+            "rule/length/default precedence), DateMeansWhatItSays (ordered replacement translation + calendar validity over all "
+            "layout orders), DecimalMeansWhatItSays (separator loop), TextMeansWhatItSays (choice, constant, glob, regex prefix "
+            "match); each case is replayed: verdict and native value (int, Decimal, time tuple, str) must equal the denotation.",
+            "Bounded grammars per type (see the MCField*.tla modules); canonical integer text, zero-padded dates; strptime / re / "
+            "fnmatch are modelled for the generated subset and the strptime model is compared with the interpreter on every case; "
+            "thorough adds the sweep of all integers of up to 6 characters x all length declarations.",
+            "DESIGN.md section 5, C02"),
+    "C03": ("TLA+ spec Fields.tla (guard pipeline of AbstractFieldFormat.validated, one action per guard): TLC exhaustive over 4 "
+            "formats x empty flag x length declarations x allowed characters x cells <= 4 over {blank, allowed, disallowed} x hook "
+            "verdict; every behaviour replayed on all 8 built-in field classes",
+            "TLC checks GuardsHold (the property stated from its text); replay spells the cell for each type, measures the type's "
+            "value hook in isolation and requires validated() to give the predicted outcome with the predicted number of hook "
+            "calls; the D5 counterexample is kept as an expected-counterexample configuration.",
+            "Cells up to 4 characters; the blank is always allowed; a blanks-only fixed-width cell longer than its field is not "
+            "judged; the hooks themselves are C02.",
+            "DESIGN.md section 5, C03"),
 })
 
 NOT_BUILT = "check not built yet in this round (planned: see DESIGN.md section 5)"
